@@ -337,24 +337,24 @@ theorem session_cleans_up (l : Led) (s : Sess) (hp : s.sid ∉ l.pending) (hs : 
   · -- handleError is not entered
     cases hran : out.ran <;>
       simp [execute, executeWith, hh, hp, hran, Led.sub, Led.unsub, Led.unsubOpt, upd_upd, upd_self, sl, se, ss, hl, hel,
-        hp', hes', sizeOf', Clean, liveOf, hs, hes, releaseAll, staleHits] <;>
+        hp', hes', sizeOf', Clean, liveOf, hs, hes, releaseAll, registerAll, staleHits] <;>
       ((repeat' constructor) <;> first | assumption | omega | (split <;> simp) | (intro n hn; omega) | (simp +arith [List.filter] <;> omega))
-  · cases hran : out.ran <;> rcases second with _ | ⟨el, fin⟩
+  · cases hran : out.ran <;> rcases second with _ | ⟨el, fin, alive⟩
     · simp [execute, executeWith, hh, hp, hran, Led.sub, Led.unsub, Led.unsubOpt, upd_upd, upd_self, sl, se, ss, hl, hel,
-        hp', hes', sizeOf', Clean, liveOf, hs, hes, releaseAll, staleHits]
+        hp', hes', sizeOf', Clean, liveOf, hs, hes, releaseAll, registerAll, staleHits]
       all_goals ((repeat' constructor) <;> first | assumption | omega | (split <;> simp) | (intro n hn; omega) | (simp +arith [List.filter] <;> omega))
     · cases el <;> cases hr2 : fin.ran <;>
         simp [execute, executeWith, hh, secondAttempt, election, hp, hran, hr2, Led.sub, Led.unsub, Led.unsubOpt,
           Led.esub, Led.eunsub, upd_upd, upd_self, sl, se, ss, hl, hel, hp', hes', sizeOf', Clean, liveOf, hs, hes,
-          waitSubs2, releaseAll, staleHits] <;>
+          waitSubs2, releaseAll, registerAll, staleHits] <;>
         ((repeat' constructor) <;> first | assumption | omega | (split <;> simp) | (intro n hn; omega) | (simp +arith [List.filter] <;> omega))
     · simp [execute, executeWith, hh, hp, hran, Led.sub, Led.unsub, Led.unsubOpt, upd_upd, upd_self, sl, se, ss, hl, hel,
-        hp', hes', sizeOf', Clean, liveOf, hs, hes, releaseAll, staleHits]
+        hp', hes', sizeOf', Clean, liveOf, hs, hes, releaseAll, registerAll, staleHits]
       all_goals ((repeat' constructor) <;> first | assumption | omega | (split <;> simp) | (intro n hn; omega) | (simp +arith [List.filter] <;> omega))
     · cases el <;> cases hr2 : fin.ran <;>
         simp [execute, executeWith, hh, secondAttempt, election, hp, hran, hr2, Led.sub, Led.unsub, Led.unsubOpt,
           Led.esub, Led.eunsub, upd_upd, upd_self, sl, se, ss, hl, hel, hp', hes', sizeOf', Clean, liveOf, hs, hes,
-          waitSubs2, releaseAll, staleHits] <;>
+          waitSubs2, releaseAll, registerAll, staleHits] <;>
         ((repeat' constructor) <;> first | assumption | omega | (split <;> simp) | (intro n hn; omega) | (simp +arith [List.filter] <;> omega))
 
 /-- **C09 (b), any order.** Any sequence of sessions (any ids, roles, process counts, first and second attempts in any
@@ -393,30 +393,45 @@ theorem refusal_touches_nothing (l : Led) (s : Sess) (hp : s.sid ∈ l.pending) 
     `sessions_any_order` already quantify over every pattern of Close failures (`Sess.opened`); stated alone: -/
 theorem release_leaves_nothing (l : Led) (s : Sess) (hp : s.sid ∉ l.pending) (hs : l.streams s.sid = [])
     (hes : s.sid ∉ l.estreams) (hl : l.live s.sid = []) (hel : l.elive s.sid = []) :
-    (execute l s).1.streams s.sid = [] ∧ (execute l s).2.streams = 0 ∧ (execute l s).2.stale = 0 := by
+    (execute l s).1.streams s.sid = [] ∧ (execute l s).2.streams = 0 ∧ (execute l s).2.unclosed = 0 ∧
+    (execute l s).2.stale = 0 := by
   obtain ⟨_, _, h3, _, _, hc⟩ := session_cleans_up l s hp hs hes hl hel
-  exact ⟨by rw [h3]; exact hs, hc.2.2.2.2.1, hc.2.2.2.2.2.1⟩
+  exact ⟨by rw [h3]; exact hs, hc.2.2.2.2.1, hc.2.2.2.2.2.1, hc.2.2.2.2.2.2.1⟩
 
 /-- the seeded variant re-derived: keeping a stream whose Close() failed leaves it registered after the session, and
     the next session of the same id is refused its fresh stream to that peer (corpus line `sess a:c:1f1:ok,a:c:1:ok`) -/
 theorem keep_failed_goes_stale :
-    let r1 := executeWith election releaseKeepFailed (Led.empty 0) ⟨"a", .coord, 1, .ok, false, none, [⟨1, true⟩, ⟨2, false⟩]⟩
-    let r2 := executeWith election releaseKeepFailed r1.1 ⟨"a", .coord, 1, .ok, false, none, [⟨1, false⟩, ⟨2, false⟩]⟩
+    let r1 := executeWith election releaseKeepFailed registerAll (Led.empty 0) ⟨"a", .coord, 1, .ok, false, none, [⟨1, true, false⟩, ⟨2, false, true⟩]⟩
+    let r2 := executeWith election releaseKeepFailed registerAll r1.1 ⟨"a", .coord, 1, .ok, false, none, [⟨1, false, false⟩, ⟨2, false, false⟩]⟩
     r1.2.streams = 1 ∧ r2.2.stale = 1 := by decide
+
+/-- the seeded variants of wave C re-derived: a stream registered only after its first write succeeded is never closed
+    when that write fails (corpus line `sess a:c:1w3:ok`) … -/
+theorem register_after_write_leaks :
+    (executeWith election releaseAll registerWritten (Led.empty 0)
+      ⟨"a", .coord, 1, .ok, false, none, [⟨1, false, true⟩, ⟨2, false, false⟩]⟩).2.unclosed = 1 := by decide
+
+/-- … and a listener that blocks on the third alive answer never releases the election's registrations
+    (corpus line `sess c:P:1:silent>selfA3:ok`) -/
+theorem wedged_listener_leaks :
+    (executeWith electionWedging releaseAll registerAll (Led.empty 0)
+      ⟨"c", .part, 1, .silent, true, some ⟨.self, .ok, 3⟩, []⟩).2.elive = 6 ∧
+    (executeWith electionWedging releaseAll registerAll (Led.empty 0)
+      ⟨"c", .part, 1, .silent, true, some ⟨.self, .ok, 2⟩, []⟩).2.elive = 0 := by decide
 
 /-- as found, every bully election left its six subscriptions and its streams on the election communication (witness
     kept as corpus line `sess a:P:1:silent>self:idle`) -/
 theorem asfound_election_leaks :
-    (executeWith electionAsFound releaseAll (Led.empty 0)
-      ⟨"a", .part, 1, .silent, true, some ⟨.self, .idle⟩, []⟩).2.elive = 6 := by decide
+    (executeWith electionAsFound releaseAll registerAll (Led.empty 0)
+      ⟨"a", .part, 1, .silent, true, some ⟨.self, .idle, 0⟩, []⟩).2.elive = 6 := by decide
 
 /-- non-vacuity: a participant session with two retryable processes whose coordinator stays silent, retried through
     an election this relayer wins and then successful; then the same id again; another id's subscriptions (handle 7,
     on both communications) stay untouched -/
 example :
     let l0 : Led := ⟨[], fun s => if s = "z" then [⟨"z", 7, 2⟩] else [], fun _ => [], fun _ => [], ["z"], 8, 2, 0⟩
-    let r1 := execute l0 ⟨"a", .part, 2, .silent, true, some ⟨.self, .ok⟩, [⟨1, true⟩, ⟨2, false⟩]⟩
-    let r2 := execute r1.1 ⟨"a", .coord, 2, .comm, true, some ⟨.self, .fail⟩, [⟨1, false⟩]⟩
+    let r1 := execute l0 ⟨"a", .part, 2, .silent, true, some ⟨.self, .ok, 4⟩, [⟨1, true, false⟩, ⟨2, false, true⟩]⟩
+    let r2 := execute r1.1 ⟨"a", .coord, 2, .comm, true, some ⟨.self, .fail, 0⟩, [⟨1, false, true⟩]⟩
     r1.2.ret = .ok ∧ r1.2.sub = 7 ∧ r1.2.unsub = 7 ∧ r1.2.runs = [1, 1] ∧ r1.2.stops = [1, 1] ∧
     r2.2.ret = .err ∧ r2.2.sub = 8 ∧ r2.2.runs = [2, 2] ∧ r2.2.elive = 0 ∧
     r2.1.live "z" = [⟨"z", 7, 2⟩] ∧ r2.1.live "a" = [] ∧ r2.1.estreams = ["z"] := by decide
